@@ -195,6 +195,18 @@ CHECKS = {
                   "a 2^-60 square root; pi enters through the float cross-section). No axioms.",
         technique="Rocq proofs about do_move/run_hooks + correspondence (vm_compute) + oracle",
         ref="§C20"),
+    "C11": dict(
+        text="C11_same_target (a request as absolute coordinates in absolute mode and as offsets in relative mode "
+             "normalise to the same absolute target on every axis, for every tracked position and partial request), "
+             "C11_same_origin (origin and relative centre identical: any shape function sees identical absolute arguments "
+             "-- shape-agnostic), C11_vertex_reached (each absolute vertex converted to the current mode and moved to is "
+             "reached in either mode); with C01_tracks the machine traces agree up to word rounding. The check runs each "
+             "logical toolpath (moves, rapids, bypass moves, nested mode blocks, all nine tracer shapes incl. parametric "
+             "user curves) twice on the implementation and compares the machine vertices one by one.",
+        note=TB + "Exact rational arithmetic (float rounding of p + (t - p) not modelled; tolerance in the comparison). "
+                  "No axioms.",
+        technique="Rocq proofs (mode independence of normalisation and emission) + two-run differential oracle on the code",
+        ref="§C11"),
 }
 
 PENDING_REASON = "check not built yet in this session (work in progress; see DESIGN.md §10 for the order)"
